@@ -675,3 +675,5 @@ PROPS["C17"]["claim"] += (" generated_*_ignores_receiver (Proofs/EndToEnd/Receiv
 
 PROPS["C02"]["claim"] += (" hsRun_incorrect_password / generated_newV2Session_incorrect_password (same file): a RAKP Message 2 with tag 0 and status OK whose AuthCode is not the keyed hash of the exchange under the caller's "
                           "password makes newV2Session AS TRANSLATED return ErrIncorrectPassword — never a session, never a generic error — with no RAKP Message 3 sent.")
+# C17 also runs the paged enumerations: a second enumeration on a connection after a failed one (seed C17-B15)
+PROPS["C17"]["scenarios"] = PROPS["C17"]["scenarios"] + ["enum:suites,dcmi"]
